@@ -141,8 +141,21 @@ def _job_measure_gate(tier, rng):
     with shimmed([], extra={(st, 'measure_quantum_vector'): rec}):
         r = g.forward(tok)
     ok = r == 'Q1' and len(calls) == 1 and calls[0][0] is tok and tuple(calls[0][1]) == (0, 2) and calls[0][2] is g.np_rng and g.bitstr == 'BITS' and g.probability == 'PROB'
-    out.append(ob(f'{PROP}.MeasureGate.forward.delegates_and_records', 'proved' if ok else 'refuted', functions=fns, tier='P', backend='exact-eval (recorder stub)',
-                  witness=None if ok else dict(calls=repr(calls)), native=dict(confirmed=not ok)))
+    if not ok:
+        # 'delegates' is about how forward() is organised; end-to-end, no stub: forward() on a random 3-qubit state must give what measure_quantum_vector gives with an equal
+        # generator, and record that outcome. If it does, the code is organised differently from what the clause reads -> undecided; otherwise a violation.
+        x = rng.normal(size=8) + 1j * rng.normal(size=8); x = x / np.linalg.norm(x)
+        g2 = numqi.sim.Circuit().measure((0, 2), seed=11)
+        q1 = g2.forward(x.copy())
+        bits, prob, ref = st.measure_quantum_vector(x.copy(), (0, 2), np.random.default_rng(11))
+        same = np.allclose(q1, ref, atol=1e-12) and tuple(g2.bitstr) == tuple(bits) and np.allclose(g2.probability, prob, atol=1e-12)
+        if same:
+            out.append(ob(f'{PROP}.MeasureGate.forward.delegates_and_records', 'undecided', engine_suspect=True, functions=fns, tier='P', backend='exact-eval (recorder stub)+native',
+                          detail=f'forward() does not go through measure_quantum_vector the way the recorder expects (calls={calls!r:.200}), but returns and records what measure_quantum_vector gives'))
+            ok = None
+    if ok is not None:
+        out.append(ob(f'{PROP}.MeasureGate.forward.delegates_and_records', 'proved' if ok else 'refuted', functions=fns, tier='P', backend='exact-eval (recorder stub)',
+                      witness=None if ok else dict(calls=repr(calls)), native=dict(confirmed=not ok)))
     ok = len(c.gate_index_list) == 1 and c.gate_index_list[0][0] is g and tuple(c.gate_index_list[0][1]) == (0, 2) and g.kind == 'measure'
     out.append(ob(f'{PROP}.Circuit.measure.appends_gate_with_index', 'proved' if ok else 'refuted', functions=fns, tier='P', backend='exact-eval',
                   witness=None if ok else dict(list=repr(c.gate_index_list)), native=dict(confirmed=not ok)))
